@@ -67,14 +67,14 @@ func judgeAllSchedules(c *fw.Ctx, prog []*model.N, sig string) {
 		return
 	}
 	// first run decides the bound
-	probe := h.RunFile(src, h.Opts{})
+	probe := h.RunFile(src, h.Opts{Fuel: fuelFor(res)})
 	bound := -1
 	if len(probe.Points) > 3 {
 		bound = 2
 		c.Count("programs_with_deviation_bound_2")
 	}
 	execs, pts := exploreChoices(c, func(prefix []int) h.Outcome {
-		return h.RunFile(src, h.Opts{Prefix: prefix})
+		return h.RunFile(src, h.Opts{Prefix: prefix, Fuel: fuelFor(res)})
 	}, bound, func(prefix []int, o h.Outcome) {
 		c.Eval(fmt.Sprint(prefix)+src, true)
 		c.Outcome(o.Stdout + "\x00" + o.FirstDiag())
